@@ -205,7 +205,10 @@ func init() {
 			if i < 16 {
 				return fractionalMultipleCase(i)
 			}
-			return twin(ctx, i-16, r)
+			if i < 20 {
+				return nullItemsCase(i - 16)
+			}
+			return twin(ctx, i-20, r)
 		},
 		opts:    sg.Opts{MaxDepth: 3, PNullable: 0.3, PAddProps: 0.35, NullType: true, RootKinds: true, AddPropsTrue: true, W: map[string]float64{"map": 2.5}},
 		classes: docgen.Classes{"type": true, "nullok": true, "nullreq": true, "addkey": true},
@@ -1151,6 +1154,79 @@ func stringOverlapCase(i int) *sem.Case {
 			d = o
 		}
 		c.Docs = append(c.Docs, docgen.Doc{V: d, Class: "overlap", Label: fmt.Sprintf("login-len-%d", len([]rune(login)))})
+	}
+	return c
+}
+
+// suffixLookalikeCase: sibling names that look like the suffixed names the generator hands out for duplicates
+// (Status / status / Status_2, UnmarshalJSON / UnmarshalJSON_2, A / a / A_2 / A_3): distinct fields, own bindings.
+func suffixLookalikeCase(i int) *sem.Case {
+	sets := [][]string{{"Status", "status", "Status_2"}, {"UnmarshalJSON", "UnmarshalJSON_2"}, {"A", "a", "A_2", "A_3"}, {"Item_2", "item", "Item", "ITEM"}, {"AdditionalProperties_2", "additionalProperties", "x"}, {"Name_1", "Name", "name", "Name_2"}}
+	names := sets[i%len(sets)]
+	obj := &sg.Schema{Types: []string{"object"}}
+	full := jsonx.Obj{}
+	for k, n := range names {
+		obj.Props = append(obj.Props, sg.Prop{Name: n, S: &sg.Schema{Types: []string{"string"}, MinLen: 1}})
+		full = append(full, jsonx.KV{K: n, V: fmt.Sprintf("value-%d", k)})
+	}
+	if (i/len(sets))%2 == 1 {
+		obj.AddProps = &sg.Schema{Types: []string{"integer"}}
+	}
+	root := &sg.Schema{Types: []string{"object"}, Props: []sg.Prop{{Name: "rec", S: obj}}}
+	if (i/(2*len(sets)))%2 == 1 {
+		// as definitions: type names instead of field names
+		root = &sg.Schema{Types: []string{"object"}}
+		full = jsonx.Obj{}
+		for k, n := range names {
+			d := &sg.Schema{Types: []string{"object"}, Props: []sg.Prop{{Name: fmt.Sprintf("f%d", k), S: &sg.Schema{Types: []string{"string"}}}}, Required: []string{fmt.Sprintf("f%d", k)}}
+			root.Defs = append(root.Defs, sg.Prop{Name: n, S: d})
+			root.Props = append(root.Props, sg.Prop{Name: fmt.Sprintf("p%d", k), S: &sg.Schema{Ref: "#/$defs/" + n, Target: d}})
+			full = append(full, jsonx.KV{K: fmt.Sprintf("p%d", k), V: jsonx.Obj{{K: fmt.Sprintf("f%d", k), V: "v"}}})
+		}
+		c := &sem.Case{Root: root, Sig: fmt.Sprintf("suffix-lookalike/defs/%d", i%len(sets)), NoAuto: true}
+		c.Docs = append(c.Docs, docgen.Doc{V: full, Class: "collision", Label: "all"})
+		for k, kv := range full {
+			other := full[(k+1)%len(full)].V
+			c.Docs = append(c.Docs, docgen.Doc{V: jsonx.Obj{kv}, Class: "collision", Label: "own"}, docgen.Doc{V: jsonx.Obj{{K: kv.K, V: other}}, Class: "collision", Label: "other-schema"})
+		}
+		return c
+	}
+	c := &sem.Case{Root: root, Sig: fmt.Sprintf("suffix-lookalike/%d", i%(2*len(sets))), NoAuto: true}
+	c.Docs = append(c.Docs, docgen.Doc{V: jsonx.Obj{{K: "rec", V: full}}, Class: "collision", Label: "all-keys"})
+	for _, kv := range full {
+		c.Docs = append(c.Docs, docgen.Doc{V: jsonx.Obj{{K: "rec", V: jsonx.Obj{kv}}}, Class: "collision", Label: "only-" + kv.K}, docgen.Doc{V: jsonx.Obj{{K: "rec", V: full.Del(kv.K)}}, Class: "collision", Label: "without-" + kv.K})
+	}
+	return c
+}
+
+// nullItemsCase: arrays whose items are of type null, with and without length limits, nested: a non-null element is
+// a type fault whatever else the array says.
+func nullItemsCase(i int) *sem.Case {
+	nul := func() *sg.Schema { return &sg.Schema{Types: []string{"null"}} }
+	root := &sg.Schema{Types: []string{"object"}, Props: []sg.Prop{
+		{Name: "plain", S: &sg.Schema{Types: []string{"array"}, Items: nul()}},
+		{Name: "reserved", S: &sg.Schema{Types: []string{"array"}, Items: nul(), MaxItems: 3}},
+		{Name: "atleast", S: &sg.Schema{Types: []string{"array"}, Items: nul(), MinItems: 1}},
+		{Name: "grid", S: &sg.Schema{Types: []string{"array"}, MinItems: 1, Items: &sg.Schema{Types: []string{"array"}, Items: nul()}}},
+	}}
+	if i%2 == 1 {
+		root.Required = []string{"reserved"}
+	}
+	c := &sem.Case{Root: root, Sig: fmt.Sprintf("null-items/%d", i%2), NoAuto: true}
+	if (i/2)%2 == 1 {
+		c.Args = []string{"--extra-imports"}
+	}
+	base := jsonx.Obj{}
+	if i%2 == 1 {
+		base = jsonx.Obj{{K: "reserved", V: []any{nil}}}
+	}
+	for _, key := range []string{"plain", "reserved", "atleast"} {
+		for _, arr := range [][]any{{nil}, {nil, nil}, {jsonx.N(1)}, {"x", nil}, {jsonx.Obj{{K: "a", V: true}}}, {false}, {[]any{}}} {
+			c.Docs = append(c.Docs, docgen.Doc{V: base.Set(key, arr), Class: "typefault", Label: key})
+		}
+	}
+	for _, g := range [][]any{{[]any{nil}}, {[]any{false}}, {[]any{nil, []any{jsonx.N(1)}}}, {[]any{}, []any{nil, nil}}, {[]any{"s"}}} {
+		c.Docs = append(c.Docs, docgen.Doc{V: base.Set("grid", g), Class: "typefault", Label: "grid"})
 	}
 	return c
 }
